@@ -47,7 +47,8 @@ Record cfg : Type := mkCfg {
   g_reset_extclip : bool;       (* the source resets enableExtendedClipboard in SetEncodings (repair of
                                    F21, notes/fix_C03_3.diff); decided from the source text on every run *)
   g_raw_for_24bpp : bool;       (* repair of F23 (notes/fix_C03_4.diff) present in the source *)
-  g_wrap_coalesce : bool        (* repair of F5 (notes/fix_C03_5.diff) present in the source *)
+  g_wrap_coalesce : bool;       (* repair of F5 (notes/fix_C03_5.diff, dccedf3) present in the source *)
+  g_wrap_copy : bool            (* second stage of that repair (notes/fix_C03_6.diff, F24) present in the source *)
 }.
 
 (* messages written immediately while the SetEncodings list is being read *)
@@ -263,6 +264,10 @@ Definition on_set_cursor (c : caps) : caps := set_cursor_changed c true.
 
 (* rfbNewFramebuffer *)
 Definition on_newfb (c : caps) : caps := if c_newfbsize c then set_fbpending c true else c.
+
+(* case rfbSetDesktopSize, the application's hook refused: "Force ExtendedDesktopSize message to be sent
+   with result code in case of error" (a success only takes effect through rfbNewFramebuffer) *)
+Definition on_sds_fail (c : caps) : caps := set_fbpending c true.
 
 (* case rfbSetScale: rfbScalingSetup sets newFBSizePending; rfbSendNewScaleSize clears it and
    writes a ResizeFrameBuffer message unless NewFBSize will announce the size.
